@@ -269,8 +269,14 @@ def main():
         if teardown:
             teardown()
     except BaseException as e:  # noqa
-        rec["verdict"] = "ERROR"
-        rec["detail"] = "".join(traceback.format_exception(type(e), e, e.__traceback__))[-3000:]
+        tb = traceback.extract_tb(e.__traceback__)
+        if isinstance(e, (NameError, UnboundLocalError)) and tb and tb[-1].filename.startswith("<"):
+            # statements sliced from the current AST no longer stand on their own
+            rec["verdict"] = "NOT-ENCODED"
+            rec["detail"] = "slice broken: %s in %s: %s" % (type(e).__name__, tb[-1].filename, str(e)[:200])
+        else:
+            rec["verdict"] = "ERROR"
+            rec["detail"] = "".join(traceback.format_exception(type(e), e, e.__traceback__))[-3000:]
     rec["wall_s"] = round(time.time() - t_wall, 2)
     json.dump(rec, open(out, "w"))
 
